@@ -14,12 +14,16 @@ CONSTANTS D,            \* context deadline (clock ticks from the start of the c
           InSession,    \* a lost reply inside a session is terminal
           Faults,       \* subset of {"blackhole", "late", "garbage", "temp", "good"}
           G_Nested,     \* per-attempt deadline = min(now + T, D)
-          G_BackoffCtx  \* back-off sleep is cut short by the context
+          G_BackoffCtx, \* back-off sleep is cut short by the context
+          Dprev,        \* deadline of the context of an earlier call on the same connection that is still alive (0: none)
+          G_OwnCtx      \* the retry loop is bound to this call's context (FALSE: to the earlier call's, while that lives)
 
 VARIABLES now, pc, until, arrival, kind, result, retAt, attempts
 vars == <<now, pc, until, arrival, kind, result, retAt, attempts>>
 Min2(a, b) == IF a < b THEN a ELSE b
 None == 0 - 1
+\* the deadline the retry loop (its stop test and its sleeps) observes
+LoopEnd == IF G_OwnCtx \/ Dprev = 0 THEN D ELSE Dprev
 
 Init == now = 0 /\ pc = "attempt" /\ until = 0 /\ arrival = None /\ kind = "none" /\ result = "pending" /\ retAt = None /\ attempts = 0
 Return(r) == result' = r /\ retAt' = now /\ pc' = "done"
@@ -28,8 +32,11 @@ Return(r) == result' = r /\ retAt' = now /\ pc' = "done"
 Attempt(f) ==
   /\ pc = "attempt" /\ attempts' = attempts + 1
   /\ IF now >= D
-     THEN \* expired context: the write deadline has passed, nothing is sent, the loop ends with the context's error
-          Return("error") /\ UNCHANGED <<now, until, arrival, kind>>
+     THEN \* expired context: the write deadline has passed, nothing is sent; the loop ends with the context's error -
+          \* if it is this call's context that the loop watches
+          IF now >= LoopEnd THEN Return("error") /\ UNCHANGED <<now, until, arrival, kind>>
+          ELSE /\ pc' = "sleep" /\ until' = IF G_BackoffCtx THEN Min2(now + Bk, LoopEnd) ELSE now + Bk
+               /\ UNCHANGED <<now, arrival, kind, result, retAt>>
      ELSE /\ until' = IF G_Nested THEN Min2(now + T, D) ELSE now + T
           /\ kind' = f
           /\ arrival' = CASE f = "blackhole" -> None [] f = "late" -> now + T + 1 [] OTHER -> now + 1
@@ -39,16 +46,16 @@ Tick == /\ pc \in {"wait", "sleep"} /\ now < until /\ (pc = "wait" => (arrival =
 Receive ==
   /\ pc = "wait" /\ arrival # None /\ now = arrival /\ arrival <= until
   /\ IF kind = "good" THEN Return("success") /\ UNCHANGED <<now, until, arrival, kind, attempts>>
-     ELSE /\ pc' = "sleep" /\ until' = IF G_BackoffCtx THEN Min2(now + Bk, D) ELSE now + Bk
+     ELSE /\ pc' = "sleep" /\ until' = IF G_BackoffCtx THEN Min2(now + Bk, LoopEnd) ELSE now + Bk
           /\ UNCHANGED <<now, arrival, kind, result, retAt, attempts>>
 AttemptTimeout ==
   /\ pc = "wait" /\ now = until /\ (arrival = None \/ arrival > until)
   /\ IF InSession THEN Return("error") /\ UNCHANGED <<now, until, arrival, kind, attempts>>
-     ELSE /\ pc' = "sleep" /\ until' = IF G_BackoffCtx THEN Min2(now + Bk, D) ELSE now + Bk
+     ELSE /\ pc' = "sleep" /\ until' = IF G_BackoffCtx THEN Min2(now + Bk, LoopEnd) ELSE now + Bk
           /\ UNCHANGED <<now, arrival, kind, result, retAt, attempts>>
 Wake ==
   /\ pc = "sleep" /\ now = until
-  /\ IF now >= D THEN Return("error") /\ UNCHANGED <<now, until, arrival, kind, attempts>>
+  /\ IF now >= LoopEnd THEN Return("error") /\ UNCHANGED <<now, until, arrival, kind, attempts>>
      ELSE pc' = "attempt" /\ UNCHANGED <<now, until, arrival, kind, result, retAt, attempts>>
 Next == (\E f \in Faults : Attempt(f)) \/ Tick \/ Receive \/ AttemptTimeout \/ Wake
 Spec == Init /\ [][Next]_vars /\ WF_vars(Next)
